@@ -111,8 +111,15 @@ def one(item):
     tmp = tempfile.mkdtemp(prefix='vt-bp-')
     try:
         with limit(30.0):
-            syn = _bp.Synth(d, item.get('seed', 0))
-            stmts = syn.statements(item.get('seed') if item.get('shuffle') else None)
+            if item.get('stmts'):
+                # the statements of a real model file (the diagram was read from them by the harness), in file order or shuffled
+                stmts = list(item['stmts'])
+                if item.get('shuffle'):
+                    import random
+                    random.Random(item.get('seed', 0)).shuffle(stmts)
+            else:
+                syn = _bp.Synth(d, item.get('seed', 0))
+                stmts = syn.statements(item.get('seed') if item.get('shuffle') else None)
             loader = fresh_loader()
             feed(loader, stmts, item.get('route', 'input'), tmp)
             name = item.get('root') or None
